@@ -16,10 +16,10 @@ CLAIMED = {
 		'Decides exhaustively over finite tables: the grammar ladder is order-isomorphic to ast._Precedence for all ~25 common tokens; each of ~300 child selectors in the node classes addresses a child the grammar can produce at that position for every mapped tag, with satisfiable class assertions; no unconditional class shadows later candidates of its tag; constant indexing into repeated slots is reported (F7 known finding). Tree equality with ast.parse over all programs is not decided.',
 		'tree shapes from lark compiled rules; LALR automaton and indenter not modelled', 'DESIGN.md §4 C02'),
 	'C03': ('other', 'stub-signature vs CPython result-type table, token->dunder table via probe object, literal-handler table, anchoring lint on index paths',
-		'Decides four narrow necessary conditions: stub operator/conversion signatures equal the types CPython computes on constants for every admitted operand type; the operator token->dunder table equals CPython dispatch; literal handlers name the right standard type; index-path containment tests are "."-anchored. Scope lookup / template substitution over run-time data is not decided.',
+		'Decides four narrow necessary conditions: stub operator/conversion signatures equal the types CPython computes on constants for every admitted operand type; the operator token->dunder table equals CPython dispatch; literal handlers name the right standard type; index-path containment tests are "."-anchored; operators typed without an operand check yield CPython's result type for every scalar operand (F11/F12 known); a flattened operator chain is typed with the operator of each step. Scope lookup / template substitution over run-time data is not decided.',
 		'CPython builtins are the oracle (evaluated on constants, no tranp code runs)', 'DESIGN.md §4 C03'),
-	'C04': ('other', 'store pairing along load/unload paths, syntactic nondeterminism-source inventory with positive fixture, global-mutation inventory',
-		'Decides: every per-module store written on the load path is deleted on the unload path and Modules.unload reaches every owner; no set construction, id/hash or unsorted listing outside a reviewed allow-list on the pipeline; process-global mutation is limited to the reviewed (import-time / pure-cache) sites; the transpiler dependency stack is balanced. Equality of outputs across histories and hash seeds is not decided.',
+	'C04': ('other', 'store pairing along load/unload paths, syntactic nondeterminism-source inventory with positive fixture, global-mutation inventory, in-place-writer call-site analysis for shared reflection symbols',
+		'Decides: every per-module store written on the load path is deleted on the unload path and Modules.unload reaches every owner; no set construction, id/hash or unsorted listing outside a reviewed allow-list on the pipeline; process-global mutation is limited to the reviewed (import-time / pure-cache) sites; the transpiler dependency stack is balanced; every function that writes reflection attrs in place is only handed `.to_temporary()` copies (shared SymbolDB symbols are never rewritten). Equality of outputs across histories and hash seeds is not decided.',
 		'insertion-ordered dicts; per-module objects live in the per-module DI container', 'DESIGN.md §4 C04'),
 	'C05': ('other', 'guard-dominance walk over the closed cache region + who-may-touch + cache-identity coverage',
 		'Decides the clause "with caching disabled no cache file is read or written": every call-graph path from a public cache entry to a file-system effect passes the enabled side of a CacheSetting.enabled test; only the cache region touches the cache directory; every cache identity covers the settings/files its factory reads. warm==cold over edit histories is not decided.',
@@ -34,19 +34,19 @@ CLAIMED = {
 		'Decides the contract between the value-driven flattening and the annotation-driven popping for all 102 expandable properties and 183 handlers of the three Procedure clients, exhaustively; plus metadata-key unambiguity, one-result-per-node shape of Procedure, and that the raw-descendant fallback cannot fire for classes with properties.',
 		'purity of node properties is argued, not checked; prop_keys recomputed with the algorithm read from node.py', 'DESIGN.md §4 C09'),
 	'C06': ('other', 'dataflow over the header round trip (dict-literal keys -> constructor parameters -> attributes), writer/reader separator agreement, Jinja first-line check, same-expression checks in Runner',
-		'Decides the header round-trip and target-selection clauses: the header reads back to the same value (field wiring is the identity, every field is hashed), written and parsed text forms agree, the embedded header is built from the same sources that can_transpile compares, the header is read from the path the output is written to, forced runs take every module. Dependency-driven staleness and output-path injectivity are not decided.',
+		'Decides the header round-trip and target-selection clauses: the header reads back to the same value (field wiring is the identity, every field is hashed), written and parsed text forms agree, the embedded header is built from the same sources that can_transpile compares, the header is read from the (absolute) path the output is written to, forced runs take every module, each output-dir rule maps distinct module files to distinct outputs. Dependency-driven staleness is not decided.',
 		'jinja2 as reader of block/entrypoint.j2', 'DESIGN.md §4 C06'),
 	'C13': ('other', 'static evaluation of the TokenDefinition tables (default and grammar variant) joined with the TokenTypes enum and a frozen name<->spelling table; domain-order reachability',
-		'Decides the table clauses exhaustively (28 symbols, 21 combined symbols, two definitions): offsets map to the right enum members, ranges are disjoint and fold into the Symbol domain, bracket/minus members used by type sit at the right offsets, combined symbols have a length the lexer tries, no opener is shadowed by an earlier domain or list entry. Token-stream equality with CPython and layout invariance are not decided.',
+		'Decides the table clauses exhaustively (28 symbols, 21 combined symbols, two definitions): offsets map to the right enum members, ranges are disjoint and fold into the Symbol domain, bracket/minus members used by type sit at the right offsets, combined symbols have a length the lexer tries, no opener is shadowed by an earlier domain or list entry; plus three layout clauses by guard dominance: nothing is emitted and no indentation state is written while inside brackets, the indent is measured after the last line break of the token and the level/DEDENT count follow it, columns are measured from the last line break. Token-stream equality with CPython over all texts is not decided.',
 		'frozen member-name <-> spelling table', 'DESIGN.md §4 C13'),
 	'C14': ('other', 'writer/reader/TypedDict key-set joins and field dataflow for the two record shapes; separator agreement of the attr-path encoding',
-		'Decides the schema clauses of the symbol-table export/import: keys written == keys read == TypedDict keys per record shape, discriminators agree, every restored constructor field is fed from the key of the same name, path fields use the same codec pair, attr paths use the same separator and integer indices. Symbol-by-symbol equality, dependency order and idempotence are not decided.',
+		'Decides the schema clauses of the symbol-table export/import: keys written == keys read == TypedDict keys per record shape, discriminators agree, every restored constructor field is fed from the key of the same name, path fields use the same codec pair, attr paths use the same separator, integer indices and are written totally; the export order is a post-order walk that also visits the declaration behind every referenced type key. Symbol-by-symbol equality and idempotence over all tables are not decided.',
 		'CPython ast only', 'DESIGN.md §4 C14'),
 	'C15': ('other', 'field symmetry of dumps/loads branches and coverage of every attribute the EntryOfLark view reads by what loads restores',
 		'Decides that nothing the node layer can observe of a lark tree is lost by the cache encoding: per-branch key symmetry, discriminator agreement, source_map order, every Tree/Token/Meta attribute read by the view is restored, no other module reads the raw lark object, JSON codec and cache format agree. Field-by-field equality over all trees is not decided.',
 		'lark constructor signatures read with inspect', 'DESIGN.md §4 C15'),
 	'C17': ('other', 'finite dispatch analysis: branch operator vs CPython-parsed operator class, routing partition, exhaustiveness against the grammar operator ladder',
-		'Decides exhaustively over the finite (node class, token) table that a folded value can only come from a branch applying the operator CPython applies for that token, that int/int true division is never truncated, that every other combination is refused, and that no grammar-admitted token falls into a default arm that changes its meaning. Numeric corner cases through float() are not decided.',
+		'Decides exhaustively over the finite (node class, token) table that a folded value can only come from a branch applying the operator CPython applies for that token, that int/int true division is never truncated, that every other combination is refused, that no grammar-admitted token falls into a default arm that changes its meaning, that a same-level chain is folded front to back with the operator of each step, and that the evaluator keeps no memo across expressions. Numeric corner cases through float() are not decided.',
 		'the evaluator computes with Python operators, so the right operator gives the right value', 'DESIGN.md §4 C17'),
 	'C19': ('other', 'store analysis of the container classes: fresh-copy/alias classification in clone/combine, add/delete store pairing along bind/unbind paths (following super), raise-type inventory',
 		'Decides the structural clauses of the container model: clones and combinations own their storage and do not mutate operands, the right operand wins, stores written by bind/resolve are exactly those deleted by unbind, rebind is unbind-then-bind, the public API raises ValueError (TypeError in combine), invoke curries the maximal resolvable prefix. Observational equivalence with a reference model is not decided.',
